@@ -459,6 +459,39 @@ pub fn execute(scn: &Scn, property: &str) -> RunOutcome {
                         format!("phase={after_phase:?}"),
                     ));
                 }
+                // Second reading of "time spent in the state": under the pause/resume rules (C05's
+                // reference model) an animation that is resumed continues where it was frozen, so
+                // is_ended must also agree with the model's time in state. (On a tree where the
+                // animator follows those rules both readings coincide.)
+                if v.is_none() && model.cur == cur {
+                    let m_tau = model.tau.as_secs_f64();
+                    let disagree = match total {
+                        None => false,
+                        Some(None) => false,
+                        Some(Some(u)) => {
+                            let exp = if scn.grid {
+                                model.tau.as_nanos() >= (u * 1e9).round() as u128
+                            } else {
+                                m_tau >= u
+                            };
+                            let ulp = (f32::EPSILON as f64) * u.abs().max(1e-30);
+                            let in_band = !scn.grid && (m_tau - u).abs() <= 4.0 * ulp + 2e-9;
+                            !in_band && !band && exp != now.ended && model.tau != c07_tau
+                        }
+                    };
+                    if disagree {
+                        v = Some(viol(
+                            "C07",
+                            "ended-vs-time-spent-under-resume-rules",
+                            step,
+                            format!(
+                                "state {cur}: by the pause/resume rules {:?} have been spent in this state (total {:?}), the animator counts {:?} and reports is_ended={}",
+                                model.tau, total, c07_tau, now.ended
+                            ),
+                            format!("phase={after_phase:?}"),
+                        ));
+                    }
+                }
                 // rest invariant
                 let state_changed = matches!(op, Op::SetState(s) if *s as usize != model_before_cur);
                 if state_changed {
